@@ -13,7 +13,12 @@ use super::super::{
 impl Parser for Include {
     fn parse(input: &str) -> IResult<&str, Include> {
         map(
-            tuple((tag("include"), blank, Literal::parse, opt(list_separator))),
+            tuple((
+                tag("include"),
+                opt(blank),
+                Literal::parse,
+                opt(list_separator),
+            )),
             |(_, _, path, _)| Include { path },
         )(input)
     }
@@ -24,7 +29,7 @@ impl Parser for CppInclude {
         map(
             tuple((
                 tag("cpp_include"),
-                blank,
+                opt(blank),
                 Literal::parse,
                 opt(list_separator),
             )),
